@@ -190,7 +190,7 @@ func main() {
 	}
 	stderrs := []stderrV{{"empty", "", 0}, {"non-json", "fatal: something broke\n", 0}, {"huge", "", 2 << 30}}
 	for _, c := range errCodes {
-		stderrs = append(stderrs, stderrV{"structured:" + c, fmt.Sprintf(`{"errorCode":%q,"errorMessage":"scripted %s message","errorMetadata":{"k":"v"}}`, c, c), 0})
+		stderrs = append(stderrs, stderrV{"structured:" + c, fmt.Sprintf(`{"errorCode":%q,"errorMessage":"scripted %s message, 100%% for %%s of %%d%%%% done","errorMetadata":{"k":"v"}}`, c, c), 0})
 	}
 	// a structured error that carries one more member than the three the contract names (a newer plugin, a vendor field)
 	for _, c := range errCodes[2:4] {
@@ -381,7 +381,11 @@ func main() {
 			switch {
 			case strings.HasPrefix(c.StderrKind, "structured:"):
 				code := strings.TrimPrefix(c.StderrKind, "structured:")
-				if res.ErrType != "request-error" || res.ErrCode != code || !strings.Contains(res.ErrMsg, "scripted "+code+" message") {
+				wantMsg := "scripted " + code + " message"
+				if strings.Contains(c.B.Stderr, "100%") { // (the message is the plugin's text, whatever characters it holds)
+					wantMsg += ", 100% for %s of %d%% done"
+				}
+				if res.ErrType != "request-error" || res.ErrCode != code || !strings.Contains(res.ErrMsg, wantMsg) {
 					r.Violation(sig("structured-error-lost"), fmt.Sprintf("%s: the plugin printed the structured error %s, the call returned %s/%s %q", c.ID, code, res.ErrType, res.ErrCode, res.ErrMsg), wit)
 				}
 			case c.StderrKind == "empty":
